@@ -33,7 +33,7 @@ def _rat(s):
     if math.isnan(x) or math.isinf(x):
         return None
     f = Fraction(x)
-    g = f.limit_denominator(100000)
+    g = f.limit_denominator(1000000)  # 5 % in the ratio unit lb/la = 5/102400
     if abs(f - g) <= 1e-12 * max(1, abs(g)) and abs(g.numerator) <= INT_LIMIT:
         return [g.numerator, g.denominator]
     if abs(f.numerator) <= INT_LIMIT and f.denominator <= INT_LIMIT:
@@ -127,8 +127,21 @@ def _table(ck, data):
         if row["offset"]["repr"] not in ("0.0", "0"):
             continue
         seen[d] = i
-        rows.append({"name": f"#{i}", "sym": row["sym"], "dim": d, "emdims": sorted(em.get(d, ()))})
+        rows.append({"name": f"#{i}", "sym": row["sym"], "dim": d, "emdims": sorted(em.get(d, ())), "extra": False, "one": _is_one(row)})
+    # extra rows: every OTHER dimensionless unit of the table (percent, Zsun, counts, ...) - a dimensionless value is
+    # treated specially by __setitem__ and friends, and "dimensionless" is not the same as "the null unit"
+    for i, row in enumerate(data["lut"]):
+        if row["dim"] is None or any(row["dim"]) or seen.get("1") == i or row["offset"]["repr"] not in ("0.0", "0"):
+            continue
+        rows.append({"name": f"#{i}", "sym": row["sym"], "dim": "1", "emdims": [], "extra": True, "one": _is_one(row)})
     return rows
+
+
+def _is_one(row):
+    try:
+        return float(row["scale"]["repr"]) == 1.0
+    except (KeyError, TypeError, ValueError):
+        return False
 
 
 def run(ck):
@@ -179,9 +192,18 @@ def run(ck):
     arr_fns = [f for f in arr_all if ("np." + f.replace("_where", "").replace("histogram_range", "histogram")) in handled or f == "append"]
     missing = [f for f in arr_all if f not in arr_fns]
     units = ck.q(units_q, units_t)
+    dl_units = ["pc", "nq", "lr"]  # scaled dimensionless units: percent, 1/4, the ratio lb/la (dimension 1, NOT the null unit)
+    arr_forms = ["call", "kw", "kwall", "out", "kwout", "lo", "hi", "kwlo", "kwhi", "alias", "aliaslo", "aliashi", "aliasout", "method", "methodkw", "methodlo", "methodhi"]
+    # which value slots have alias keyword names is a fact about the NumPy at hand (numpy >= 2.1: np.clip(min=, max=))
+    alias = ck.pmap("impl_c01", "alias_ops", [{}], nproc=1)[0]
+    if not isinstance(alias, list):
+        raise MachineryFailure(f"alias_ops: {alias}")
     consts = {
         "Units": _set(units),
-        "ConvUnits": _set(units + ["C", "statC"]),
+        "ConvUnits": _set(sorted(set(units + ["C", "statC"] + dl_units), key=(units + ["C", "statC"] + dl_units).index)),
+        "DlUnits": _set(dl_units),
+        "ArrForms": _set(arr_forms),
+        "AliasOps": _set(alias),
         "UKinds0": _set(ck.q(k0_q + sp_q + seq_q + shp_q, kall + sp_t + seq_t + shp_t)),
         "UKinds1": _set(ck.q(k1_q + sp_q + seq_q + shp_q, kall + sp_t + seq_t + shp_t)),
         "SpUnits": _set(ck.q(["la", "K"], units_t)),
@@ -207,9 +229,10 @@ def run(ck):
 
     def mc_table():
         # quick: each dimension against its cyclic successors at two strides; thorough: all ordered pairs
-        cfg = "CONSTANTS\n  TableUnits <- MCTable\n" + f"  Strides = {ck.q('{1, 7}', '{}')}\n  AllPairs = {ck.q('FALSE', 'TRUE')}\n"
-        cfg += "".join(f"  {k} = {{}}\n" for k in ("Units", "ConvUnits", "UKinds0", "UKinds1", "Forms", "Fams", "SpUnits", "Hists", "HUnits"))
-        cfg += f"  ArrFns = {_set(arr_fns)}\n  UfOps = {_set(tree_ops)}\nINIT Init\nNEXT TNext\nINVARIANT Export\nCHECK_DEADLOCK FALSE\n"
+        cfg = "CONSTANTS\n  TableUnits <- MCTable\n" + f"  Strides = {ck.q('{1, 7}', '{}')}\n  AllPairs = {ck.q('FALSE', 'TRUE')}\n  XStride = 6\n"
+        cfg += "".join(f"  {k} = {{}}\n" for k in ("Units", "ConvUnits", "UKinds0", "UKinds1", "Forms", "Fams", "SpUnits", "Hists", "HUnits", "DlUnits"))
+        cfg += f"  ArrForms = {_set(arr_forms)}\n  AliasOps = {_set(alias)}\n"
+        cfg += f"  ArrFns = {_set(arr_fns)}\n  UfOps = {_set(tree_ops)}\nINIT Init\nNEXT TNextAll\nINVARIANT Export\nCHECK_DEADLOCK FALSE\n"
         open(ck.spec + "/MC_C01_table_run.cfg", "w").write(cfg)
         res = ck.tlc("MC_C01_table", "MC_C01_table_run", env={"TABLE": tpath}, workers=1, label=f"gamma sweep over {len(table)} dimensions of the lookup table", coverage=False, timeout=3000)
         got = res.by_tag("CASE")
@@ -243,6 +266,14 @@ def run(ck):
             raise MachineryFailure("too few cases exported")
         if not any(c.get("h", "none") != "none" for c in cases):
             raise MachineryFailure("no registry-history case exported")
+        # vacuity guards of the newer case dimensions: every call form and a scaled dimensionless value must be present
+        got_forms = {c["form"] for c in cases if c["fam"] == "arrfn"}
+        want_forms = {f for f in arr_forms if alias or not f.startswith("alias")}
+        if "clip" in arr_fns and not want_forms <= got_forms:
+            raise MachineryFailure(f"array-function call forms missing from the matrix: {sorted(want_forms - got_forms)}")
+        for fam in ("setitem", "arrfn", "ufunc", "conv"):
+            if not any(c["fam"] == fam and (c["n0"] in dl_units or c["n1"] in dl_units) for c in cases):
+                raise MachineryFailure(f"no scaled-dimensionless case in family {fam}")
         tcases = [r["c"] for r in f_tab.result()[1]] if f_tab else []
         f_obs = pool.submit(ck.pmap, "impl_c01", "observe", cases, None, 900, {})
         f_tobs = pool.submit(ck.pmap, "impl_c01", "observe", tcases, max(1, NCPU // 2), 900, {"table": table}) if tcases else None
@@ -266,7 +297,7 @@ def run(ck):
     if tcases:
         mid = tcases[len(tcases) // 2]
         ck.sample({"table_case": mid, "units": {t["name"]: t["sym"] for t in table if t["name"] in (mid["n0"], mid["n1"])}})
-        ck.cov["gamma"] = {"dimensions": len(table), "cases": len(tcases), "all_ordered_pairs": ck.tier == "thorough"}
+        ck.cov["gamma"] = {"dimensions": sum(1 for t in table if not t["extra"]), "extra_dimensionless_units": sum(1 for t in table if t["extra"]), "cases": len(tcases), "all_ordered_pairs": ck.tier == "thorough"}
     ck.cov["evaluations"] = len(cases) + len(tcases)
     ck.cov["distinct_nontrivial"] = applied
     ck.cov["rule"] = "cases on which P_C01 demands something (Demanded or EqDemanded true): operands of different dimension in a commensurability-requiring operation outside the documented exceptions"
